@@ -1,5 +1,5 @@
 (* Pipe layer, C16: dropping the output stream shuts the pipe down.
-   Proved for [f_pending_recheck F = true] (the intended repair).  For the current code ([facts_now]) see the
+   Proved for [f_pending_recheck F = true] (the intended repair).  For the current code ([facts_unrepaired]) see the
    refutation witness in Scenarios.v / PropsC16.v.
 
    NOTE on the statement.  "poll_fn = None" is NOT what holds in general, even with the repair: when the drop lands while
